@@ -342,6 +342,24 @@ func (e *tmExec) runScript(sc tmScript, rnd *rand.Rand, alone bool) {
 					break // the verdict is established at Quiesce; no need to wait 2.5 s a thousand times
 				}
 			}
+		case "retire":
+			// "a Call arriving exactly when the last worker retires": the idle time-out of this execution is one
+			// nanosecond, so the worker leaves as soon as it has started the only future there is; the next Call
+			// follows after a random gap of 0-3 microseconds.  A Call that meets the retiring worker half-way
+			// (counted as alive, but gone) leaves a future that nobody will ever start: shown at Quiesce.
+			for k := 0; k < st.N; k++ {
+				near := e.call(0, 0, false, false)
+				for t0 := time.Now(); !near.started.Load() && time.Since(t0) < 2500*time.Millisecond; {
+					if time.Since(t0) > 200*time.Microsecond {
+						time.Sleep(20 * time.Microsecond)
+					}
+				}
+				if !near.started.Load() {
+					break
+				}
+				for t0, g := time.Now(), time.Duration(rnd.Intn(3000)); time.Since(t0) < g; {
+				}
+			}
 		case "tick":
 			n := st.N
 			if n <= 0 {
@@ -659,6 +677,13 @@ func driveTimer(opt *Options) error {
 		}
 		if geti("chase", 0) > 0 {
 			jobs = append(jobs, job{p: p, scripts: []tmScript{{{Op: "chase", N: geti("chase", 0)}}}})
+		}
+		if n := geti("retire", 0); n > 0 {
+			pr := p
+			pr.idle, pr.idleChk, pr.sample = time.Nanosecond, false, false
+			for ; n > 0; n -= 400 { // (short executions: the trace spec carries every future of an execution in its state)
+				jobs = append(jobs, job{p: pr, scripts: []tmScript{{{Op: "retire", N: tmMin(n, 400)}}}})
+			}
 		}
 	default:
 		return fmt.Errorf("timer: unknown mode %q", mode)
